@@ -77,6 +77,14 @@ func (lex *LexScanner) SetExpectMetadata(v bool) {
 
 func (lex *LexScanner) ScanFunc(r ybase.Reader) int {
 	r.DiscardWhile(unicode.IsSpace)
+	// comments are ignored like spaces, also between '_' and its symbol.
+	// Inside braces ';' is an ordinary character.
+	// They are skipped in a loop: scanning again by recursion costs a stack
+	// frame per comment and overflows the stack on millions of comment lines.
+	for !lex.expectMetadata && r.Peek() == ';' {
+		r.DiscardWhile(func(r rune) bool { return r != '\n' && r != ybase.EOF })
+		r.DiscardWhile(unicode.IsSpace)
+	}
 
 	if lex.expectMetadata {
 		if lex.scanMetadata(r) {
@@ -98,9 +106,6 @@ func (lex *LexScanner) ScanFunc(r ybase.Reader) int {
 		return t
 	}
 	switch r.Peek() {
-	case ';': // comment
-		r.DiscardWhile(func(r rune) bool { return r != '\n' && r != ybase.EOF })
-		return lex.ScanFunc(r)
 	case 'C', 'D', 'E', 'F', 'G', 'A', 'B':
 		return nextRet(SYLLABLE)
 	case 'R':
